@@ -72,6 +72,9 @@ const CATALOGUE: &[Plant] = &[
     Plant { name: "note on timer", text: "~zt{5%min}(note)", place: 0, dialect: None, kind: "note-not-allowed:timer", error: false, parse: true, focus: "(note)" },
     Plant { name: "unsupported time value", text: ">> time: soon", place: 1, dialect: Some(true), kind: "std-unsupported-value", error: false, parse: false, focus: "soon" },
     Plant { name: "time overridden", text: ">> prep time: 5 min\n>> time: 10 min", place: 1, dialect: Some(true), kind: "time-overridden", error: false, parse: false, focus: "prep time: 5 min" },
+    Plant { name: "zero denominator (range start)", text: "@zq{1/0-2%g}", place: 0, dialect: Some(true), kind: "division-by-zero", error: true, parse: true, focus: "1/0" },
+    Plant { name: "zero denominator (range end)", text: "#zpot{1-3/0}", place: 0, dialect: Some(true), kind: "division-by-zero", error: true, parse: true, focus: "3/0" },
+    Plant { name: "empty ingredient name (no-break space)", text: "@\u{00A0}{2%kg}", place: 0, dialect: None, kind: "empty-name:ingredient", error: true, parse: true, focus: "{2%kg}" },
     Plant { name: "malformed front matter", text: "---\nza: [\n---\n", place: 2, dialect: None, kind: "other:", error: true, parse: false, focus: "za: [\n" },
 ];
 
